@@ -199,10 +199,14 @@ structure L2State where
   model : Option St := none
   /-- the `hist step` lines since the last state line -/
   steps : List (List String × List String) := []
+  /-- set by a `hist relax` line: states were withheld from the driver (the window in which a
+  panic-dropped transaction's pages are leaked by design), so the persisted savepoint counter -
+  not observable - is no longer known; from then on the observed counter is adopted -/
+  counterUnknown : Bool := false
 
 /-- verdict of the algorithmic model for an observed state: `none` = agrees (or not applicable) -/
 def onState (st : L2State) (o : Obs) : L2State × Option String :=
-  let resync : L2State := { model := some (fromObs o st.model), steps := [] }
+  let resync : L2State := { model := some (fromObs o st.model), steps := [], counterUnknown := st.counterUnknown }
   match st.model, st.steps with
   | some m, [(req, res)] =>
     match plan m req res o with
@@ -215,9 +219,11 @@ def onState (st : L2State) (o : Obs) : L2State × Option String :=
       if !guardAll m ops then
         (resync, some s!"the step is not enabled in the model state (guard): {repr ops}")
       else
-        let m' := run m ops
+        let m0 := run m ops
+        -- with an unknown persisted counter the observed savepoint counter is adopted
+        let m' := if st.counterUnknown then { m0 with nextSp := o.nsp, pspCounter := o.nsp, img := { m0.img with pspCounter := o.nsp } } else m0
         match firstDiff m' o with
-        | none => ({ model := some m', steps := [] }, none)
+        | none => ({ model := some m', steps := [], counterUnknown := st.counterUnknown }, none)
         | some d => (resync, some d)
   | _, _ => (resync, none)
 
